@@ -115,6 +115,9 @@ func (in *Interp) patternStub(fn *ssa.Function) stubFn {
 			st = zeroStub
 		}
 	}
+	if st == nil && (path == "github.com/gogo/protobuf/proto" || path == "github.com/golang/protobuf/proto") && strings.HasPrefix(name, "Register") {
+		st = zeroStub
+	}
 	in.patCache[fn] = st
 	return st
 }
@@ -186,11 +189,7 @@ func buildStubs() map[string]stubFn {
 		k := int(termArg(args[1]).SignedVal())
 		t := in.fresh(name, "choose", sym.BV(64))
 		if in.opts.ConcreteMode {
-			if int(t.C) >= k {
-				in.res.Outcome = "assumefail"
-				panic(pathEnd{"assume"})
-			}
-			return t
+			return in.ctx.BVConst(t.C%uint64(k), 64)
 		}
 		alts := make([]*sym.Term, k)
 		for i := range alts {
@@ -214,8 +213,22 @@ func buildStubs() map[string]stubFn {
 				return nil
 			}
 			in.res.Reach[tag]++
+			if tag == "end" && in.sol != nil && len(in.res.Witnesses) < in.opts.Witnesses {
+				// spread the samples over the exploration: take paths 0,1,2,4,8,...
+				n := in.res.Reach[tag]
+				if n <= 2 || n&(n-1) == 0 {
+					if in.sol.Check() == sym.Sat {
+						if m := in.model(); m != nil {
+							in.res.Witnesses = append(in.res.Witnesses, m)
+						}
+					}
+				}
+			}
 		}
 		return nil
+	}
+	m["vsym.Thorough"] = func(in *Interp, fn *ssa.Function, args []Value) Value {
+		return in.ctx.BoolConst(in.opts.Thorough)
 	}
 	m["vsym.Tag"] = func(in *Interp, fn *ssa.Function, args []Value) Value {
 		in.tags = append(in.tags, in.concStr(args[0], "tag"))
@@ -567,6 +580,19 @@ func buildStubs() map[string]stubFn {
 	}
 	m["(time.Time).String"] = func(in *Interp, fn *ssa.Function, args []Value) Value { return in.mkStr("<time>") }
 	m["(time.Duration).String"] = func(in *Interp, fn *ssa.Function, args []Value) Value { return in.mkStr("<duration>") }
+
+	// ---- regexp: compiled patterns are opaque objects; matching is not modelled ----
+	reCompile := func(in *Interp, fn *ssa.Function, args []Value) Value {
+		rt := fn.Signature.Results().At(0).Type().(*types.Pointer).Elem()
+		p := Ptr{in.newCell(in.zero(rt))}
+		if fn.Signature.Results().Len() == 2 {
+			return Tuple{p, Iface{}}
+		}
+		return p
+	}
+	m["regexp.MustCompile"] = reCompile
+	m["regexp.Compile"] = reCompile
+	m["regexp.MustCompilePOSIX"] = reCompile
 
 	// ---- misc runtime ----
 	m["runtime.Caller"] = zeroStub
